@@ -1455,8 +1455,14 @@ def _make_c_or_py_source(ffi, module_name, preamble, target_file, verbose):
     recompiler.write_source_to_f(f, preamble)
     output = f.getvalue()
     try:
-        with open(target_file, 'r') as f1:
-            if f1.read(len(output) + 1) != output:
+        # compare with the characters that are in the file: no newline
+        # translation when reading, and open(..., 'w') below writes
+        # os.linesep for every '\n'
+        expected = output
+        if os.linesep != '\n':
+            expected = expected.replace('\n', os.linesep)
+        with open(target_file, 'r', newline='') as f1:
+            if f1.read(len(expected) + 1) != expected:
                 raise OSError
         if verbose:
             print("(already up-to-date)")
